@@ -42,6 +42,8 @@ def cases(tier, seed):
             yield {"kind": "model", "kernel": kern, "geom": geo, "fast_pred_var": fpv, "batch": b, "noise": rnd.choice([1e-4, 1e-2, 0.3]), "seed": rnd.randrange(10**6)}
         for strat, dist in itertools.product(["VariationalStrategy", "UnwhitenedVariationalStrategy"], ["CholeskyVariationalDistribution", "MeanFieldVariationalDistribution", "NaturalVariationalDistribution"]):
             yield {"kind": "svgp", "strategy": strat, "dist": dist, "seed": rnd.randrange(10**6)}
+        for wrapper in ("indep", "lmc"):
+            yield {"kind": "svgp_mt", "wrapper": wrapper, "seed": rnd.randrange(10**6)}
         for lk in ("gauss", "fixed", "fixed+learn", "mt"):
             yield {"kind": "noise", "lik": lk, "seed": rnd.randrange(10**6)}
         # covariance invariants along histories of state-changing operations (shared driver with C03): the hooks see every
@@ -167,7 +169,7 @@ def run_case(case, ctx):
     from vf import util
 
     g = util.gen(case["seed"])
-    return {"gram": _gram, "model": _model, "svgp": _svgp, "noise": _noise, "history": _history}[case["kind"]](case, ctx, g)
+    return {"gram": _gram, "model": _model, "svgp": _svgp, "svgp_mt": _svgp_multitask, "noise": _noise, "history": _history}[case["kind"]](case, ctx, g)
 
 
 def _history(case, ctx, g):
@@ -273,7 +275,9 @@ def _model(case, ctx, g):
     if b:
         X, y, xs = X.expand(*b, n, d).contiguous(), y.expand(*b, n).contiguous(), xs
     m, lik = _exact(case["kernel"], X, y, case["noise"], b, util.gen(case["seed"] + 1))
-    with torch.no_grad(), S.fast_pred_var(case["fast_pred_var"]):
+    # the joint train+test covariance stays lazy (the default only from 512 points on) for half of the cases
+    eager = S.max_eager_kernel_size(1 if case["seed"] % 2 else 512)
+    with torch.no_grad(), S.fast_pred_var(case["fast_pred_var"]), eager:
         with S.prior_mode(True):
             prior = m(xs)
             Cp = prior.covariance_matrix
@@ -319,6 +323,51 @@ def _svgp(case, ctx, g):
         _ = out.variance
         m.train()
         _ = m(X).variance
+    ctx.cell({k: v for k, v in case.items() if k != "seed"})
+
+
+def _svgp_multitask(case, ctx, g):
+    """multi-output variational models: the covariance handed out for inputs assigned to tasks (task_indices) and for the
+    full multitask output is symmetric PSD"""
+    import torch
+
+    import gpytorch
+    from vf import util
+    from vf.checks import c14
+
+    V = gpytorch.variational
+    T, Lat = 3, (3 if case["wrapper"] == "indep" else 2)
+    Z = util.randn(g, Lat, 4, 2)
+
+    class Mdl(gpytorch.models.ApproximateGP):
+        def __init__(s):
+            vd = V.CholeskyVariationalDistribution(4, batch_shape=torch.Size([Lat]))
+            base = V.VariationalStrategy(s, Z, vd, learn_inducing_locations=True)
+            vs = V.IndependentMultitaskVariationalStrategy(base, num_tasks=T) if case["wrapper"] == "indep" else V.LMCVariationalStrategy(base, num_tasks=T, num_latents=Lat, latent_dim=-1)
+            super().__init__(vs)
+            s.mean_module = gpytorch.means.ConstantMean(batch_shape=torch.Size([Lat]))
+            s.covar_module = gpytorch.kernels.ScaleKernel(gpytorch.kernels.RBFKernel(batch_shape=torch.Size([Lat])), batch_shape=torch.Size([Lat]))
+
+        def forward(s, x):
+            return gpytorch.distributions.MultivariateNormal(s.mean_module(x), s.covar_module(x))
+
+    m = Mdl()
+    util.randomize(m.mean_module, g, 0.7)
+    util.randomize(m.covar_module, g, 0.8)  # clearly different GPs per latent
+    c14._randomize_vd(m.variational_strategy.base_variational_strategy._variational_distribution, "CholeskyVariationalDistribution", g)
+    for mod in m.modules():
+        if hasattr(mod, "variational_params_initialized"):
+            mod.variational_params_initialized.fill_(1)
+    X = util.randn(g, 6, 2)
+    ti = torch.tensor([0, 2, 1, 1, 0, 2])
+    with torch.no_grad():
+        for mode in ("eval", "train"):
+            getattr(m, mode)()
+            full = m(X)
+            _psd_report(ctx, "multitask_variational_covariance_psd", full.covariance_matrix, f"{case['wrapper']} multitask q(f), {mode} mode", wrapper=case["wrapper"], mode=mode)
+            sub = m(X, task_indices=ti)
+            _psd_report(ctx, "multitask_variational_covariance_psd", sub.covariance_matrix, f"{case['wrapper']} q(f) with task_indices, {mode} mode", wrapper=case["wrapper"], mode=mode, task_indices=True)
+            ctx.expect("history_variance_nonnegative", bool((sub.variance >= 0).all()), "negative variance with task_indices")
     ctx.cell({k: v for k, v in case.items() if k != "seed"})
 
 
